@@ -13,16 +13,18 @@ EXPLANATION = ("Read-frame obligations proved/checked on the real code: the FIFO
                "and availability changes are confined to the window); the plugins' keys read only fields of the lot itself; keys injective on rows; the "
                "to-date consumers are prefix computations (C06: yearly list = folds up to the cut; C07: balances = folds up to the cut; C10: iterator). "
                "Syntactic frame: no module of the matcher reads module-level or class-level mutable state. The two-run relation itself (prefix of a "
-               "longer history = the shorter history's result, for every cut point) is checked by the bounded end-to-end stand-in.")
+               "longer history = the shorter history's result, for every cut point) is checked by the bounded end-to-end stand-in."
+               " Since session 5 also proved on the real bodies, against contracts over the engine's representation invariant engine_inv (contracts/engine.py): AccountingEngine.get_acquired_lot_for_taxable_event (same event with taxable_event_amount - acquired_lot_amount left; the lot returned is one of the engine's lots, not later than the event, with all that was available of it, > 0; no other lot's availability changes), AccountingEngine.get_next_taxable_event_and_amount (next list element with its full crypto_balance_change; same instant keeps the lot in hand with the difference; a newer event writes the remainder back and seeks again; a used-up lot is not handed out again) and tax_engine._get_next_taxable_event_and_acquired_lot; callee preconditions (the seek's wf) discharged at the call sites. Assumed and listed: prezzemolo's floor lookup as a pure function, engine_inv after initialize (its visible part pinned by shape obligations), the heap-based set_to_index/seek (A-HEAP). The while loop of _create_unfiltered_gain_and_loss_set is not proved.")
 TRUSTED = ["A-AVL: find_max_value_less_than(key) = value under the greatest key <= key (to_index is a function of the past)", "A-HEAP", "A-SORT (stable sort: later entries stay after the common prefix)"]
-ASSUMPTIONS = TRUSTED
+ASSUMPTIONS = TRUSTED + ["A-AVL/engine_inv: the engine's representation invariant holds after AccountingEngine.initialize (AVL insertions and tree walk outside the subset; visible part pinned by the establishes.* shape obligations)"]
 E2E = {"quick": 100, "thorough": 3000, "on_doubt": 500}
 MATCHER_MODULES = ["rp2.tax_engine", "rp2.accounting_engine", "rp2.abstract_accounting_method", PLUG + "fifo", PLUG + "lifo", PLUG + "hifo", PLUG + "lofo"]
 
 
 def items(pr):
     out = [fn(AAM + "AbstractChronologicalAccountingMethod.seek_non_exhausted_acquired_lot"), lemma("C01.rank"), custom("no_global_state", no_global_state),
-           custom("set_to_index_window", set_to_index_window), custom("key_order", key_order), custom("computed_data_call_sites", computed_data_call_sites)]
+           custom("set_to_index_window", set_to_index_window), custom("key_order", key_order), custom("computed_data_call_sites", computed_data_call_sites),
+           fn("rp2.accounting_engine.AccountingEngine.get_acquired_lot_for_taxable_event"), custom("engine_initialize", engine_initialize)]
     for m in ("lifo", "hifo", "lofo"):
         out.append(fn(f"{PLUG}{m}.AccountingMethod.sort_key"))
     return out
@@ -68,6 +70,34 @@ def set_to_index_window(pr):
     return [VC(f.qualname, "readframe", "pushes_only_lots_up_to_to_index", [], z3.BoolVal(ok2), f.loc(), 0, note=f"iter={ast.unparse(loops[0].iter) if loops else None} subs={subs}"),
             VC(e.qualname, "readframe", "upper_bound_is_the_last_lot_not_later_than_the_event", [], z3.BoolVal(ok3), e.loc(), 0, note=str(probe)),
             VC(k.qualname, "readframe", "lot_keys_are_utc_instants", [], z3.BoolVal(ok4), k.loc(), 0)]
+
+
+def engine_initialize(pr):
+    """`engine_inv` (contracts/engine.py) is assumed to hold after AccountingEngine.initialize (A-AVL: the AVL insertions and the tree walk are outside
+    the subset).  These shape obligations pin down the part of that assumption that is visible in the text: every candidates object is created by
+    `create_lot_candidates(<the engine's lot list>, <the engine's partial-amount map>)` and handed to the year tree as it is - nothing in
+    initialize advances a window (`set_to_index`, `set_from_index`), writes a partial amount or touches a heap; each lot is appended to the list
+    and inserted in the lot tree under its own key with its own index; the only call site of initialize passes iterators of the two sets."""
+    f = pr.tree.func("rp2.accounting_engine.AccountingEngine.initialize")
+    calls = [n for n in ast.walk(f.node) if isinstance(n, ast.Call)]
+    names = [getattr(c.func, "attr", getattr(c.func, "id", "")) for c in calls]
+    forbidden = sorted(set(names) & {"set_to_index", "set_from_index", "set_partial_amount", "clear_partial_amount", "add_selected_lot_to_heap", "heappush", "heappop",
+                                     "_set_partial_amount", "add_acquired_lot"})
+    created = [ast.unparse(c) for c in calls if getattr(c.func, "attr", "") == "create_lot_candidates"]
+    ok_created = len(created) == 1 and created[0].endswith("create_lot_candidates(self.__acquired_lot_list, self.__acquired_lot_2_partial_amount)")
+    ins = [c for c in calls if getattr(c.func, "attr", "") == "insert_node"]
+    direct = any(len(c.args) == 2 and isinstance(c.args[1], ast.Call) and getattr(c.args[1].func, "attr", "") == "create_lot_candidates" for c in ins)
+    lot_ins = [ast.unparse(c) for c in ins if "acquired_lot_avl" in ast.unparse(c.func)]
+    ok_lot = (len(lot_ins) == 1 and "_get_avl_node_key(acquired_lot.timestamp, acquired_lot.internal_id)" in lot_ins[0] and "_AcquiredLotAndIndex(acquired_lot, index)" in lot_ins[0]
+              and "self.__acquired_lot_list.append(acquired_lot)" in ast.unparse(f.node) and ast.unparse(f.node).count("index += 1") == 1)
+    te = pr.tree.func("rp2.tax_engine._create_unfiltered_gain_and_loss_set")
+    src = ast.unparse(te.node)
+    ok_site = ("iter(cast(Iterable[AbstractTransaction], unfiltered_taxable_event_set))" in src and "iter(cast(Iterable[InTransaction], input_data.unfiltered_in_transaction_set))" in src
+               and "new_accounting_engine.initialize(taxable_event_iterator, acquired_lot_iterator)" in src)
+    return [VC(f.qualname, "establishes", "candidates_are_handed_to_the_year_tree_as_created", [], z3.BoolVal(not forbidden and ok_created and direct), f.loc(), 0,
+               note=f"forbidden calls={forbidden} created={created} direct={direct}"),
+            VC(f.qualname, "establishes", "each_lot_is_listed_and_keyed_with_its_own_index", [], z3.BoolVal(ok_lot), f.loc(), 0, note=str(lot_ins)),
+            VC(te.qualname, "establishes", "initialize_is_given_iterators_of_the_event_set_and_the_lot_set", [], z3.BoolVal(ok_site), te.loc(), 0)]
 
 
 def computed_data_call_sites(pr):
@@ -151,5 +181,5 @@ MANIFEST_ENTRY = {
              "for every day boundary the run limited by that to-date equals the run on the history truncated there (figures, k/n numbering, yearly totals)."),
     "note": ("The two-run uniqueness argument of DESIGN 8.C09 is not discharged as a lemma over proved functional postconditions (the engine loop is not "
              "under an inductive invariant here): level 'other'. The to-date form inherits known finding 9.2 (mixed time zones) through C06/C07/C10."),
-    "technique": "contract-based deductive verification of leaf functions + syntactic read-frame obligations over the AST + bounded native stand-in for the two-run relation (labelled bounded)",
+    "technique": "contract-based deductive verification of leaf functions and of AccountingEngine.get_acquired_lot_for_taxable_event (lot window: the lot handed to a disposal is not later than it; AVL lookup and heap-based half as assumed contracts) + syntactic read-frame obligations over the AST + bounded native stand-in for the two-run relation (labelled bounded)",
 }
